@@ -230,12 +230,13 @@ PROPS['C05'] = P(
     ['unheard_broadcast_dropped_at_once_partial', 'unheard_entity_event_dropped_at_once_partial', 'counter_starts_at_number_of_readers_partial',
      'entity_event_counter_starts_at_number_of_readers_partial', 'payload_kept_while_readers_remain_partial',
      'entity_event_payload_kept_while_readers_remain_partial', 'last_reader_releases_partial', 'system_event_data_released_by_cleanup_partial',
-     'one_decrement_per_cleanup_partial', 'skipped_reader_still_cleans_up_partial', 'no_reader_is_lost_partial', 'every_scheduled_reader_is_set_up_exactly_once'],
+     'one_decrement_per_cleanup_partial', 'skipped_reader_still_cleans_up_partial', 'no_reader_is_lost_partial', 'every_scheduled_reader_is_set_up_exactly_once',
+     'every_counted_reader_of_a_broadcast_is_parked', 'every_counted_reader_of_an_entity_event_is_parked'],
     ['stale', 'recursion', 'lifetime', 'mixed'], 'payloads', determined=False,
     assumes=['PARTIAL: the theorems cover every step of the release protocol for all states (initial count, one decrement per cleanup, release at zero, abort path, setup never fails) but not the global count over a whole tree — that every queued reaction command reaches its cleanup exactly once, so the payload is dropped exactly once, after the last scheduled reader and not before. The global claim rests on the correspondence (every payload drop is a compared log line; the number of live data entities is compared after every top-level op) and on the m_payloads monitor',
              'the data-entity spawn (CSpawnData) is a separate deferred command, as in the crate'])
 MANIFEST_TEXT['C05'] = (
- "Partial proof. Machine-checked for all states: an unheard broadcast / entity event drops its payload at once and creates no bookkeeping entity or command; otherwise the counter of the fresh data entity equals the number of reaction commands queued behind it; every cleanup performs exactly one decrement, which leaves entity and payload untouched while the counter stays positive and despawns the entity — dropping the payload — when it reaches zero; the cleanup of a system-event command despawns its data entity; a skipped (aborted) reader still runs setup and cleanup and setup never fails; over a whole run every scheduled reader is set up exactly once (run or abort), never lost and never twice. The counter equation itself (each scheduled reader reaches its cleanup exactly once, so release happens exactly after the last one and no entity outlives the tree) is not a theorem: it is checked by differential runs comparing every payload drop position and the number of live data entities after every top-level op (stale profile: listeners revoked, despawned or missing between scheduling and running), plus the m_payloads monitor.",
+ "Partial proof. Machine-checked for all states: an unheard broadcast / entity event drops its payload at once and creates no bookkeeping entity or command; otherwise the counter of the fresh data entity equals the number of reaction commands queued behind it; every cleanup performs exactly one decrement, which leaves entity and payload untouched while the counter stays positive and despawns the entity — dropping the payload — when it reaches zero; the cleanup of a system-event command despawns its data entity; a skipped (aborted) reader still runs setup and cleanup and setup never fails; over whole executions every reaction command a trigger queues (as many as the counter starts with) is parked, in order, with the data entity as its parked item before the trigger command returns, and every parked command is set up exactly once (run or abort), never lost and never twice. The counter equation itself (counter = parked readers not yet cleaned up at every point, so release happens exactly after the last one and no entity outlives the tree) is not a theorem: it is checked by differential runs comparing every payload drop position and the number of live data entities after every top-level op (stale profile: listeners revoked, despawned or missing between scheduling and running), plus the m_payloads monitor.",
  "Trusted: Coq kernel; model faithfulness (differential); Bevy semantics as modelled. Partial: the exactly-once / not-before-the-last-reader claim over whole trees is correspondence + monitor.",
  "Coq proof of the step-level protocol (partial) + model/implementation correspondence on drop positions and data-entity counts + monitor", "DESIGN.md §5 C05")
 
@@ -283,12 +284,13 @@ PROPS['C08'] = P(
      'poll_schedules_every_unread_removal_partial', 'removal_reactions_go_to_exactly_the_registered_reactors_partial', 'a_removal_is_read_once_partial',
      'watched_entity_sent_once_on_despawn_partial', 'unwatched_entity_sends_nothing_partial', 'poll_schedules_every_despawn_reactor_partial',
      'despawn_reactions_go_to_exactly_the_registered_reactors_partial', 'despawn_reactor_fires_at_most_once_per_entity_partial',
-     'poll_empties_the_despawn_channel_partial'],
+     'poll_empties_the_despawn_channel_partial',
+     'reactions_of_one_poll_are_parked_in_order', 'tickets_increase_in_parking_order', 'every_parked_reaction_is_set_up_exactly_once'],
     ['poll', 'lifetime', 'mixed'], 'poll', determined=False,
-    assumes=['PARTIAL: step-level theorems for all states (recording, one poll, consumption); not proved: that a poll happens by the end of the enclosing tree / frame (structural in Machine.exec), and the link from a scheduled reaction to exactly one run (C02 partial) — these rest on the correspondence (poll profile, frames with plain Bevy systems, direct world access)',
+    assumes=['PARTIAL: step-level theorems for all states (recording, one poll, consumption); whole executions: every reaction scheduled by a poll is parked in the order the poll produced it and every parked command is set up exactly once (run or abort path); not proved: that a poll happens by the end of the enclosing tree / frame (structural in Machine.exec) — this rests on the correspondence (poll profile, frames with plain Bevy systems, direct world access)',
              'Bevy RemovedComponents double-buffering is modelled by generation stamps and clear_trackers (World.v); causes in plain Bevy systems are the frame batches of TFrame'])
 MANIFEST_TEXT['C08'] = (
- "Partial proof. Machine-checked for all states: each removal of a reactive component is recorded exactly once under a fresh sequence number and nothing is recorded for a component that was not removed; one poll schedules, for every record a checker has not read, exactly the reactions of the reactors registered for that removal (C01 dispatch exactness), and advances every cursor so that a record is read once — in every reachable state (the sequence-number invariant is closed under every interpreter step); a watched entity is sent exactly once when it dies, a poll schedules one reaction per registered despawn handle, consumes the entity's table entry (at most one firing per watched entity) and empties the channel. Not proved: the timing of polls relative to trees and frames, and the scheduled-reaction-to-single-run link; checked by differential runs of the poll profile (inserts, removals, re-inserts and despawns between polls; causes in reactors, in frame batches and by direct access; several reactors and despawn triggers per entity).",
+ "Partial proof. Machine-checked for all states: each removal of a reactive component is recorded exactly once under a fresh sequence number and nothing is recorded for a component that was not removed; one poll schedules, for every record a checker has not read, exactly the reactions of the reactors registered for that removal (C01 dispatch exactness), and advances every cursor so that a record is read once — in every reachable state (the sequence-number invariant is closed under every interpreter step); a watched entity is sent exactly once when it dies, a poll schedules one reaction per registered despawn handle, consumes the entity's table entry (at most one firing per watched entity) and empties the channel. For whole executions: every reaction a poll schedules is parked (fresh, strictly increasing ticket) in the order the poll produced it, and over a whole run every parked command is set up exactly once, by the run it causes or by the abort path. Not proved: the timing of polls relative to trees and frames; checked by differential runs of the poll profile (inserts, removals, re-inserts and despawns between polls; causes in reactors, in frame batches and by direct access; several reactors and despawn triggers per entity).",
  "Trusted: Coq kernel; model faithfulness (differential); Bevy RemovedComponents semantics as modelled. Partial: see above.",
  "Coq proof of the step-level behaviour (partial) + model/implementation correspondence", "DESIGN.md §5 C08")
 
@@ -306,10 +308,11 @@ MANIFEST_TEXT['C09'] = (
 PROPS['C12'] = P(
     ['each_delivery_carries_its_own_data', 'own_data_means_the_entries_of_one_command', 'deliveries_are_applied_in_the_order_sent_partial',
      'tickets_are_drawn_in_application_order_partial', 'busy_target_deliveries_queue_in_order_partial', 'replay_is_front_to_back_partial',
-     'deliveries_to_other_targets_keep_their_order_partial'],
+     'deliveries_to_other_targets_keep_their_order_partial',
+     'deliveries_are_parked_in_the_order_sent', 'a_delivery_is_parked_under_the_next_ticket_before_anything_it_causes', 'tickets_increase_in_parking_order'],
     ['recursion', 'mixed'], 'readers', determined=False,
     assumes=['PARTIAL: "each with its own data" is proved in full (C03); the order is proved per mechanism (application order, ticket order, FIFO postponement, front-to-back replay that keeps the order of what it skips), not as the single statement "the k-th delivery from one run to one target is the k-th of them to start" over whole programs with nested replays; that is compared (readers / order projections, bursts of 2-4 mixed deliveries to one busy or idle target) and checked by the m_order monitor'])
 MANIFEST_TEXT['C12'] = (
- "Partial proof. Machine-checked for every program: every delivery carries its own data — a run sees exactly the entries parked by the command that caused it, for any number and mix of deliveries pending for one system (C03: proved-unreachable assertion + exact claims under unique tickets). For the order: commands of one run are applied in the order queued and an in-line delivery completes with its whole subtree before the next is applied; tickets are drawn in application order; deliveries to a busy target are appended to the back of the buffer; the replay after the target's run is front to back and keeps the relative order of what it does not run. The whole-program ordering statement with nested replays is not a theorem; it is checked by differential runs (recursion profile: bursts of 2-4 deliveries of mixed kinds to one busy or idle target, alone or interleaved with other targets) and by the m_order monitor.",
+ "Partial proof. Machine-checked for every program: every delivery carries its own data — a run sees exactly the entries parked by the command that caused it, for any number and mix of deliveries pending for one system (C03: proved-unreachable assertion + exact claims under unique tickets). For the order: commands of one run are applied in the order queued and an in-line delivery completes with its whole subtree before the next is applied; tickets are drawn in application order; over whole executions the deliveries of one command list are parked in list order, each before anything it causes, under strictly increasing tickets (the k-th sent holds the k-th smallest ticket; closed invariant over every interpreter step); deliveries to a busy target are appended to the back of the buffer; the replay after the target's run is front to back and keeps the relative order of what it does not run. The whole-program statement about the order in which the deliveries START, with nested replays, with nested replays is not a theorem; it is checked by differential runs (recursion profile: bursts of 2-4 deliveries of mixed kinds to one busy or idle target, alone or interleaved with other targets) and by the m_order monitor.",
  "Trusted: Coq kernel; model faithfulness (differential); Bevy semantics as modelled. Partial: order over whole programs with nested replays is correspondence + monitor.",
  "Coq proof (own-data in full via the ticket invariant; order per mechanism, partial) + model/implementation correspondence + monitor", "DESIGN.md §5 C12")
